@@ -437,7 +437,11 @@ impl ParquetMetaDataPushDecoder {
                     return Ok(DecodeResult::Data(*metadata));
                 }
 
-                DecodeState::Finished => return Ok(DecodeResult::Finished),
+                DecodeState::Finished => {
+                    // stay finished: later calls keep returning `Finished`
+                    self.state = DecodeState::Finished;
+                    return Ok(DecodeResult::Finished);
+                }
                 DecodeState::Intermediate => {
                     return Err(general_err!(
                         "ParquetMetaDataPushDecoder: internal error, invalid state"
@@ -531,6 +535,23 @@ mod tests {
         assert_eq!(metadata.row_group(0).num_rows(), 200);
         assert_eq!(metadata.row_group(1).num_rows(), 200);
         assert!(metadata.page_index().is_some_and(PageIndex::is_complete));
+    }
+
+    /// Once decoding has finished the decoder keeps reporting `Finished` and refuses more data
+    #[test]
+    fn test_metadata_decoder_finished_is_sticky() {
+        let file_len = test_file_len();
+        let mut metadata_decoder = ParquetMetaDataPushDecoder::try_new(file_len).unwrap();
+        push_ranges_to_metadata_decoder(&mut metadata_decoder, vec![test_file_range()]);
+        expect_data(metadata_decoder.try_decode());
+        expect_finished(metadata_decoder.try_decode());
+        expect_finished(metadata_decoder.try_decode());
+        assert!(
+            metadata_decoder
+                .push_range(test_file_range(), test_file_slice(test_file_range()))
+                .is_err()
+        );
+        expect_finished(metadata_decoder.try_decode());
     }
 
     /// It is possible to feed some, but not all, of the footer into the metadata decoder
